@@ -31,6 +31,10 @@ def run(ctx):
            pre=['0 <= form <= 1', '1 <= len(T) <= 2', 'len(M) <= 2', 'all(c in "ABab_" for c in T)', 'all(c in "<&: a" for c in M)'],
            cells=[('form%d' % f, ['form == %d' % f]) for f in range(2)], timeout=tmo, confirm='confirm_parse',
            desc='same through create_app: parsed_error resource carries type and message'),
+        Ob('tb_catalogue', 'ob_tb_catalogue', '', packed=[('i', 10), ('depth', 3), ('trailer', 2, 'bool')], timeout=tmo, confirm='confirm_tb_catalogue',
+           desc='tracebacks of depth 1-3 ending in "Type: message" for 10 (type, message) pairs incl. plain Exception with the word ignored, module-qualified types, colons in the message: the page heading names type and message'),
+        Ob('files_on_page', 'ob_files_on_page', '', packed=[('kind', 4)], timeout=tmo, confirm='confirm_files_on_page',
+           desc='every monitored file name is on the page, escaped - including files inside the standard library, site-packages and clastic itself'),
         Ob('escape', 'ob_escape', 's: str', pre=['len(s) <= %d' % L],
            cells=[('len%d' % n, ['len(s) == %d' % n]) for n in range(L + 1)], timeout=tmo if T else 150,
            twin_fn='tw_escape', twin_pre=['len(s) == 2'],
